@@ -41,6 +41,9 @@ class C16(PropBase):
                 out.append(Case('get_and_find', ['', q, attrs, enc], 'get', m))
                 out.append(Case('get_paths', ['', q, attrs, enc], 'diag', m))
                 out.append(Case('get_all', [q, attrs, enc], 'get_all', m))
+                if rng.random() < 0.3:
+                    q0 = rng.choice(['hamlet/a/*', 'hamlet', 'hamlet/*/*', 'hamlet/*', '*'])
+                    out.append(Case('get_all', [q0, attrs, enc], 'get_all_constants', dict(m, q=q0)))
                 out.append(Case('find_all', [q], 'find_all', m))
                 s1 = rng.choice(allsids)
                 out.append(Case('get_data_all', [s1, attrs, enc], 'get_data', m))
@@ -54,6 +57,15 @@ class C16(PropBase):
             return None
         return None if model == impl else 'model and implementation differ'
     def oracle(self, case, impl, ctx):
+        if case.stream == 'get_all_constants':
+            # the demo routes the constant-backed levels to no Getter: nothing is yielded, nothing fails
+            gr = dict((k, v) for k, v in dict((k, vv) for k, vv in ctx['raw'])['routing'])['getters']
+            none_types = set(t for t, g, _ in gr if g == ['none'])
+            if impl[0] != 'ok':
+                return 'GetFromAll.get(%r) failed: %r' % (case.args[0], impl)
+            if case.args[0] in ('hamlet/a/*', 'hamlet', 'hamlet/*') and none_types and impl[1]:
+                return 'GetFromAll.get(%r) yields %r for types configured without a Getter' % (case.args[0], impl[1][:2])
+            return None
         if case.op == 'get_and_find':
             if impl[0] != 'ok':
                 return None if impl[1] == 'SpilException' else 'get / find raised %r' % (impl,)
